@@ -149,6 +149,7 @@ func (n *pubNodeBase) Trigger(
 	n.running = true
 	n.msgChan = make(chan *Message)
 	n.stopped = make(chan struct{})
+	stopped := n.stopped
 	internalErrChan := make(chan error)
 
 	if externalErrChan != nil {
@@ -179,10 +180,18 @@ func (n *pubNodeBase) Trigger(
 				for {
 					msgs, err := msgFetcher(ctx)
 					if err != nil {
-						if !cerrors.Is(err, context.Canceled) {
+						if cerrors.Is(err, context.Canceled) && ctx.Err() != nil {
 							// ignore context error because it is going to be caught
 							// by nodeBase.Receive anyway
-							internalErrChan <- err
+							return
+						}
+						// A context.Canceled that does not stem from the node's
+						// context (e.g. the plugin's stream ended with it) is an
+						// error like any other, the node has to learn about it.
+						select {
+						case internalErrChan <- err:
+						case <-stopped: // node stopped running, nobody is listening
+						case <-ctx.Done():
 						}
 						return
 					}
